@@ -24,7 +24,12 @@
        signal mismatch) were counted as failures;
      [legacy = true] (before 044cd88): every blocked result, executor FAILUREs
        included, was skipped.
-   The property theorems are about [legacy = false], [interim = false]. *)
+   The property theorems are about [legacy = false], [interim = false].
+
+   The result cache keeps at most 1000 entries ([evict]).  Console output (silent=False), the results log
+   (get_results_log) and the per-operation timeout_seconds are not modelled: the correspondence check runs
+   them as configurations / operations that must leave every observation below unchanged.  Recording
+   on_block / on_permit callbacks are observed through their call counts ([obs_row]). *)
 From Coq Require Import ZArith List Bool.
 Import ListNotations.
 Open Scope Z_scope.
@@ -225,8 +230,30 @@ Definition cache_probe (c : cfg) (s : state) (k : Z) : state * option result :=
     end
   else (s, None).
 
+(* _cache_result keeps at most [cache_cap] entries: when an insertion makes the dict larger, the entry
+   min(self._cache.items(), key=timestamp) is deleted - the smallest timestamp, and among equal timestamps
+   the first in dict order, i.e. the one inserted earliest.  The model's list is newest first (an entry is
+   only ever inserted for a key that is absent: a live entry is a cache hit, a stale one was just deleted by
+   _check_cache), so among equal timestamps the LAST entry of the list goes. *)
+Definition cache_cap : Z := 1000.
+
+Fixpoint oldest (l : list (Z * (result * Z))) : option (Z * Z) :=      (* key and timestamp *)
+  match l with
+  | [] => None
+  | (k, (_, ts)) :: rest =>
+      match oldest rest with
+      | Some (k', ts') => if ts <? ts' then Some (k, ts) else Some (k', ts')
+      | None => Some (k, ts)
+      end
+  end.
+
+Definition evict (l : list (Z * (result * Z))) : list (Z * (result * Z)) :=
+  if cache_cap <? Z.of_nat (length l) then
+    match oldest l with Some (k, _) => remove k l | None => l end
+  else l.
+
 Definition cache_store (c : cfg) (s : state) (k : Z) (res : result) : state :=
-  if cache_on c then set_cache s ((k, (res, now s)) :: remove k (cache s)) else s.
+  if cache_on c then set_cache s (evict ((k, (res, now s)) :: remove k (cache s))) else s.
 
 Definition mark_cached (r : result) : result :=
   mkRes (r_success r) (r_blocked r) (r_action r) true (r_exec r).
@@ -307,7 +334,10 @@ Definition exec_code (o : option zverdict) : Z :=
   end.
 Definition oz (o : option Z) : list Z := match o with Some v => [1; v] | None => [0; 0] end.
 
-Definition obs_row (x : op * state * option result) : list Z :=
+(* [cb]: recording on_block / on_permit callbacks were supplied; the row ends with how often each has been
+   called so far (on_block once per blocked answer of the gate, on_permit once per permitted one; never for a
+   refused request, a cache hit or an agent exception) - 0 0 without callbacks *)
+Definition obs_row (cb : bool) (x : op * state * option result) : list Z :=
   let '(o, s, r) := x in
   let b := br s in
   [op_code o]
@@ -319,9 +349,10 @@ Definition obs_row (x : op * state * option result) : list Z :=
   ++ [circ_code (circ b); fcount b; scount b] ++ oz (last_failure b) ++ oz (last_success b)
   ++ [trips b; total_errors b; zcalls s; ycalls s; spent s;
       total_requests s; total_blocked s; total_permitted s;
-      Z.of_nat (length (cache s)); now s].
+      Z.of_nat (length (cache s)); now s;
+      if cb then total_blocked s else 0; if cb then total_permitted s else 0].
 
-Definition case := (cfg * list op)%type.
+Definition case := (cfg * bool * list op)%type.
 
 Definition run_case (c : case) : list (list Z) :=
-  let '(cf, ops) := c in map obs_row (trace cf init ops).
+  let '(cf, cb, ops) := c in map (obs_row cb) (trace cf init ops).
